@@ -135,4 +135,23 @@ def wellFormed (h : Shape) : Bool :=
 def subInvocable (p s : Shape) (i : In) : Bool :=
   invocableS p i && gateS s (detect i)
 
+/-! ### Between detection and handling: `process_resource_causes`
+  `process_resource_causes` calls `_detect_causes`, then dedicates the cycle to the framework's finalizer —
+  `changing_cause = None`: no change handler runs — when the finalizer is to be added (required by a matching
+  mandatory deletion handler, daemon or timer; absent; the object not marked) or removed (not required, present);
+  otherwise (the view being consistent, the object pre-matching some handler) it calls
+  `process_changing_cause`. `mustBlock` = `deletion_must_be_blocked`. -/
+
+/-- The cycle only adds / removes the framework's finalizer. -/
+def finalizerCycle (i : In) (mustBlock : Bool) : Bool :=
+  (mustBlock && !i.blocked && !i.marked) || (!mustBlock && i.blocked)
+
+/-- A changing handler can be invoked in a cycle of `process_resource_causes`. -/
+def invocableRC (h : Shape) (i : In) (mustBlock : Bool) : Bool :=
+  !finalizerCycle i mustBlock && invocableS h i
+
+/-- … and a sub-handler `s` of parent `p`. -/
+def subInvocableRC (p s : Shape) (i : In) (mustBlock : Bool) : Bool :=
+  invocableRC p i mustBlock && gateS s (detect i)
+
 end Kopf.C05
